@@ -406,9 +406,9 @@ theorem eqvAllows' (a b : VC) (hma : ∀ c ∈ a.flatten, c.WF) (hmb : ∀ c ∈
         (by simpa [List.all_eq_true, VC.flatten] using ndb)
         (by simpa [VC.flatten] using wa) (by simpa [VC.flatten] using wb) h p
 
-theorem cand_text (t : String) :
+theorem cand_text (t : String) (ht : ValOk t) :
     "python_version == \"" ++ t ++ "\"" = leafText "python_version" "==" t false := by
-  simp [leafText, String.append_assoc]
+  simp [leafText, String.append_assoc, ValOk.quoteOf ht]
 
 theorem mkSingleOfC_pv_empty : mkSingleOfC "python_version" (.ver .empty) = .error .value := by rfl
 
@@ -651,7 +651,7 @@ theorem pvLeaf_merge {E : Env} {X Y : Nat} (hE : E.get? "python_version" = some 
             have hmnB : mn ∈ B := (hr0.2 (.rng R) (by simp [VC.flatten])).2.2.2 mn
               (by simp [RC.bounds, RC.view, VRange.bounds, RC.min, RC.max, hmin])
             obtain ⟨a, b, rfl⟩ := hlB mn hmnB
-            rw [litV_text, cand_text,
+            rw [litV_text, cand_text _ (relText_valOk a [b]),
               parseItemMarker_leafText "python_version" "==" _ false (by decide) (by decide) (relText_valOk a [b])] at hcq
             simp only [itemConstraintString, Bool.false_eq_true, if_false,
               mkSingle_pvLeaf (sop := .eq) (ops := "==") (by decide) a b] at hcq
